@@ -69,6 +69,7 @@ class GssMonitor:
             reduce=P._reduce,
             shifts=P._do_shifts,
             parse=P.parse,
+            finish_err=P._finish_error_reporting,
             create_link=G.GSSNode.create_link,
             for_token=G.GSSNode.for_token,
         )
@@ -137,6 +138,14 @@ class GssMonitor:
             mon.c["shift_merge"] += max(0, (n_for - len(self._for_shifter)) - new)
             return r
 
+        def finish_error_reporting(self, input_str):
+            # error reporting simulates the reductions for every possible lookahead;
+            # the same closure invariant applies to that simulation
+            if mon.do_closure and not self.dynamic_filter:
+                mon.check_closure(self)
+            mon.heads = []
+            return o["finish_err"](self, input_str)
+
         def parse(self, *a, **k):
             mon.reset()
             try:
@@ -149,6 +158,7 @@ class GssMonitor:
         P._reduce = _reduce
         P._do_shifts = do_shifts
         P.parse = parse
+        P._finish_error_reporting = finish_error_reporting
         G.GSSNode.create_link = create_link
         G.GSSNode.for_token = for_token
         self.installed = True
@@ -163,6 +173,7 @@ class GssMonitor:
         P._reduce = o["reduce"]
         P._do_shifts = o["shifts"]
         P.parse = o["parse"]
+        P._finish_error_reporting = o["finish_err"]
         G.GSSNode.create_link = o["create_link"]
         G.GSSNode.for_token = o["for_token"]
         self.installed = False
